@@ -3,5 +3,5 @@
 VERIF="$1"
 export GOPROXY=off GOFLAGS=-mod=mod
 mkdir -p "$VERIF/.build/plugins"
-cd "$VERIF/harness" && go build -o "$VERIF/.build/plugins/falco-p1" ./cmd/c18plugin || exit 1
+cd "$VERIF/harness" && go build $VERIF_MODFLAG -o "$VERIF/.build/plugins/falco-p1" ./cmd/c18plugin || exit 1
 for n in 2 3 4; do cp "$VERIF/.build/plugins/falco-p1" "$VERIF/.build/plugins/falco-p$n"; done
